@@ -30,11 +30,13 @@ Record st := {
   lnk : link;
   cif_pending : bool;           (* tryReconnect has begun, closeInFlight has not finished *)
   holding : option (option N);  (* the loop took a request: Some (Some id) / a notification or cancel: Some None *)
-  exe : exec
+  exe : exec;
+  redial_n : nat;               (* number of the next redial attempt of the current outage *)
+  slept : bool                  (* the redial goroutine has announced its backoff sleep and not dialled since *)
 }.
 
 Definition init : st :=
-  {| calls := []; inflight := []; lnk := Up; cif_pending := false; holding := None; exe := EIdle |}.
+  {| calls := []; inflight := []; lnk := Up; cif_pending := false; holding := None; exe := EIdle; redial_n := 0; slept := false |}.
 
 (* which repairs are in the code:
    strict_window (554462f): nothing is registered in-flight while the link is being redialled;
@@ -77,15 +79,19 @@ Fixpoint remove_id (id : N) (l : list (N * nat)) : list (N * nat) :=
   match l with [] => [] | (k, a) :: r => if k =? id then remove_id id r else (k, a) :: remove_id id r end.
 
 Definition set_calls (s : st) (cs : list (N * call)) : st :=
-  {| calls := cs; inflight := inflight s; lnk := lnk s; cif_pending := cif_pending s; holding := holding s; exe := exe s |}.
+  {| calls := cs; inflight := inflight s; lnk := lnk s; cif_pending := cif_pending s; holding := holding s; exe := exe s; redial_n := redial_n s; slept := slept s |}.
 Definition set_inflight (s : st) (l : list (N * nat)) : st :=
-  {| calls := calls s; inflight := l; lnk := lnk s; cif_pending := cif_pending s; holding := holding s; exe := exe s |}.
+  {| calls := calls s; inflight := l; lnk := lnk s; cif_pending := cif_pending s; holding := holding s; exe := exe s; redial_n := redial_n s; slept := slept s |}.
 Definition set_link (s : st) (k : link) (p : bool) : st :=
-  {| calls := calls s; inflight := inflight s; lnk := k; cif_pending := p; holding := holding s; exe := exe s |}.
+  {| calls := calls s; inflight := inflight s; lnk := k; cif_pending := p; holding := holding s; exe := exe s; redial_n := redial_n s; slept := slept s |}.
 Definition set_holding (s : st) (h : option (option N)) : st :=
-  {| calls := calls s; inflight := inflight s; lnk := lnk s; cif_pending := cif_pending s; holding := h; exe := exe s |}.
+  {| calls := calls s; inflight := inflight s; lnk := lnk s; cif_pending := cif_pending s; holding := h; exe := exe s; redial_n := redial_n s; slept := slept s |}.
 Definition set_exe (s : st) (e : exec) : st :=
-  {| calls := calls s; inflight := inflight s; lnk := lnk s; cif_pending := cif_pending s; holding := holding s; exe := e |}.
+  {| calls := calls s; inflight := inflight s; lnk := lnk s; cif_pending := cif_pending s; holding := holding s; exe := e; redial_n := redial_n s; slept := slept s |}.
+
+Definition set_dial (s : st) (n : nat) (b : bool) : st :=
+  {| calls := calls s; inflight := inflight s; lnk := lnk s; cif_pending := cif_pending s; holding := holding s; exe := exe s;
+     redial_n := n; slept := b |}.
 
 Definition upd (s : st) (id : N) (f : call -> call) : option st :=
   match lookup id (calls s) with
@@ -214,15 +220,17 @@ Definition step (v : cvariant) (s : st) (e : ev) : option st :=
       end
   | ReconnBegin =>
       match holding s with
-      | None => if is_up s then Some (set_link s Redial true) else None
+      | None => if is_up s then Some (set_dial (set_link s Redial true) 0 false) else None
       | _ => None
       end
   | RedialSwap =>
       if is_redial s && negb (cif_pending s) && nil_b (inflight s) then Some (set_link s Up false) else None
-  | RedialAttempt n => if is_redial s then Some s else None
+  | RedialAttempt n =>
+      (* attempts of one outage are numbered 0, 1, 2, ...; each announces the backoff sleep that precedes its dial *)
+      if is_redial s && Nat.eqb n (redial_n s) && negb (slept s) then Some (set_dial s (S n) true) else None
   | RedialDialed ok =>
       match lnk s with
-      | Redial => Some s
+      | Redial => if slept s then Some (set_dial s (redial_n s) false) else None   (* no dial without the sleep before it *)
       | ExitedDialing => Some (set_link s Exited (cif_pending s))   (* the one dial that was already under way at exit *)
       | _ => None
       end
